@@ -133,6 +133,22 @@ theorem submits_as_spec (p : Prog) (h : Handle) (hcl : client evs = some (p, h))
   | future r inh => rw [hctl] at hi; simp [hi.2.2.2.1]
   | gone => rw [hctl] at hi; obtain ⟨_, _, r, inh, _, hs⟩ := hi; simp [hs]
 
+/-! ### Share(shared future, e) carries e -/
+
+/-- `Share(sf, e)` (async/share.hpp: MakeContractOn(e) + Connect) as the source of a pipeline: whether the SharedFuture is
+    ready already or fulfilled later, the state the first step is attached to carries `e` — so a `Then(f)` without executor
+    is given to `e` (inheritance clause), in `mech` and in the sequential reading alike.  `Share(sf)` carries the inline
+    executor.  (Seeded r3b-2: a fast path for a ready SharedFuture returned a core that had forgotten `e`.) -/
+theorem share_carries_executor (e : Exec) (p : Nat) (f : Ful) (pre : Bool) (ctx : Option Nat) (g : G) (subs : List Nat) :
+    (specSrc cfg (.sharedKept e p f pre) none false subs).2.1 = e ∧
+    (match startSrc cfg (.sharedKept e p f pre) ctx g with
+     | .go _ inh _ _ => inh = e
+     | .wait _ inh _ => inh = e
+     | .crash _ => False) ∧
+    ownExec .inherit e = e := by
+  refine ⟨rfl, ?_, rfl⟩
+  cases h : g.isSet p pre <;> simp [startSrc, h]
+
 /-! ### ThenInline never submits -/
 
 /-- **inline_never_submits** (T1): ThenInline / DetachInline cores are not Call-type: Core::Impl calls CallImpl directly;
@@ -437,6 +453,10 @@ theorem tie_FutureBase_DetachOn : Extracted.Kernels.FutureBase_DetachOn = Skelet
 theorem tie_FutureOn_DetachInherit : Extracted.Kernels.FutureOn_DetachInherit = Skeletons.FutureOn_DetachInherit := rfl
 theorem tie_detail_Run : Extracted.Kernels.detail_Run = Skeletons.detail_Run := rfl
 theorem tie_MakeContractOn : Extracted.Kernels.MakeContractOn = Skeletons.MakeContractOn := rfl
+-- Share / Split / Connect, whole text
+theorem tie_share_hpp : Extracted.Kernels.ShareSrc_share_hpp = Skeletons.ShareSrc_share_hpp := rfl
+theorem tie_split_hpp : Extracted.Kernels.ShareSrc_split_hpp = Skeletons.ShareSrc_split_hpp := rfl
+theorem tie_connect_hpp : Extracted.Kernels.ShareSrc_connect_hpp = Skeletons.ShareSrc_connect_hpp := rfl
 -- free jobs (Model/FreeJob.lean)
 theorem tie_Submit_free : Extracted.Kernels.Submit_free = Skeletons.Submit_free := rfl
 theorem tie_MakeUniqueJob : Extracted.Kernels.MakeUniqueJob = Skeletons.MakeUniqueJob := rfl
